@@ -66,8 +66,24 @@ def constructible(lib, struct, field):
             v = _const_variant(b, o, 0)
             if v is not None:
                 consts.add(v)
-            else:
-                opaque.append((b, s, o))
+                continue
+            # a helper that stores its own parameter: the stored values are what its callers pass
+            l = op_local(o) if not o.get("p") else None
+            for _ in range(6):
+                if l is None or 1 <= l <= b.arg_count:
+                    break
+                d = single_def(b, l)
+                l = op_local(d[2]["rv"]["o"]) if (d and d[1] == "assign" and d[2]["rv"]["k"] == "use" and not d[2]["rv"]["o"].get("p")) else None
+            if l is not None and 1 <= l <= b.arg_count and "{closure" not in b.id:
+                passed = []
+                for cb in lib.bodies.values():
+                    for c in cb.calls:
+                        if c.callee == b.id and len(c.args) >= l:
+                            passed.append(_const_variant(cb, c.args[l - 1], 0))
+                if passed and all(x is not None for x in passed):
+                    consts.update(passed)
+                    continue
+            opaque.append((b, s, o))
     return consts, opaque, sites
 
 
